@@ -8,6 +8,7 @@ import (
 	"os"
 	"os/exec"
 	"runtime"
+	"strings"
 	"sync"
 	"syscall"
 	"time"
@@ -24,11 +25,12 @@ type Result struct {
 // Prop describes the harness of one property.
 type Prop struct {
 	Rule        string
-	Gen         func(g *Gen)               // generates the case lines from g.Rng / g.Tier
+	Gen         func(g *Gen)                 // generates the case lines from g.Rng / g.Tier
 	Exec        func(caseLine string) Result // runs the implementation on one case (in a worker)
 	CaseTimeout time.Duration
 	Workers     int
-	MemMB       int // address-space limit of a worker
+	MemMB       int      // address-space limit of a worker
+	WorkerEnv   []string // extra environment of the worker processes (e.g. GORACE=...)
 }
 
 // Gen is handed to Prop.Gen.
@@ -46,9 +48,11 @@ func (g *Gen) Pick(q, t int) int {
 	}
 	return q
 }
-func (g *Gen) Emit(caseLine string)   { g.cases = append(g.cases, caseLine) }
-func (g *Gen) Exhaustive(space string) { g.run.Stats.ExhaustiveSpaces = append(g.run.Stats.ExhaustiveSpaces, space) }
-func (g *Gen) Note(s string)          { g.run.Note(s) }
+func (g *Gen) Emit(caseLine string) { g.cases = append(g.cases, caseLine) }
+func (g *Gen) Exhaustive(space string) {
+	g.run.Stats.ExhaustiveSpaces = append(g.run.Stats.ExhaustiveSpaces, space)
+}
+func (g *Gen) Note(s string) { g.run.Note(s) }
 
 // Main is the entry point of every cmd/<id>.
 func Main(p Prop) {
@@ -121,21 +125,47 @@ func safeExec(p Prop, line string) (res Result) {
 }
 
 type wproc struct {
-	cmd *exec.Cmd
-	in  io.WriteCloser
-	out *bufio.Reader
+	cmd    *exec.Cmd
+	in     io.WriteCloser
+	out    *bufio.Reader
+	stderr *tailBuf
 }
+
+// tailBuf keeps the first 8 KiB a worker writes to stderr (a race report, a fatal error).
+type tailBuf struct {
+	mu sync.Mutex
+	b  []byte
+}
+
+func (t *tailBuf) Write(p []byte) (int, error) {
+	t.mu.Lock()
+	if len(t.b) < 8192 {
+		t.b = append(t.b, p...)
+	}
+	t.mu.Unlock()
+	return len(p), nil
+}
+
+func (t *tailBuf) String() string {
+	t.mu.Lock()
+	defer t.mu.Unlock()
+	return string(t.b)
+}
+
+var workerEnv []string
 
 func startWorker() *wproc {
 	cmd := exec.Command(os.Args[0], "-worker")
-	cmd.Stderr = io.Discard
+	tb := &tailBuf{}
+	cmd.Stderr = tb
+	cmd.Env = append(os.Environ(), workerEnv...)
 	cmd.SysProcAttr = &syscall.SysProcAttr{Pdeathsig: syscall.SIGKILL}
 	in, _ := cmd.StdinPipe()
 	out, _ := cmd.StdoutPipe()
 	if err := cmd.Start(); err != nil {
 		panic(err)
 	}
-	return &wproc{cmd: cmd, in: in, out: bufio.NewReaderSize(out, 1<<20)}
+	return &wproc{cmd: cmd, in: in, out: bufio.NewReaderSize(out, 1<<20), stderr: tb}
 }
 
 func (w *wproc) kill() {
@@ -146,6 +176,7 @@ func (w *wproc) kill() {
 
 func execAll(p Prop, cases []string) []Result {
 	results := make([]Result, len(cases))
+	workerEnv = p.WorkerEnv
 	nw := p.Workers
 	if nw <= 0 {
 		nw = runtime.NumCPU()
@@ -213,7 +244,13 @@ func execAll(p Prop, cases []string) []Result {
 				select {
 				case x := <-ch:
 					if x.err != nil {
-						results[i] = Result{Obs: "crash"}
+						w.cmd.Wait()
+						msg := w.stderr.String()
+						if strings.Contains(msg, "DATA RACE") {
+							results[i] = Result{Obs: "race", Viol: []OracleViolation{{Detail: "data race reported by the race detector: " + clip(msg, 1500), Key: "race"}}}
+						} else {
+							results[i] = Result{Obs: "crash", Viol: []OracleViolation{{Detail: "worker died: " + clip(msg, 600)}}}
+						}
 						bad()
 						w.kill()
 						w = nil
